@@ -157,6 +157,9 @@ def gen_case(seed):
             src = "[%d, {%d}]" % (counter, counter) if g["kind"] == "list" else "{(1, 2): %d}" % counter
             events.append({"op": "cell", "module": g["module"], "text": "%s = %s\n" % (g["name"], src), "unit": ["g", g["id"]],
                            "kind": "rebind-unencodable"})
+            cur = copy.deepcopy(cur)
+            cur["globals"][g["id"]]["src"] = src      # from here on the variable is untracked: no later event re-binds it (the
+            #                                           way back to a tracked value is outside the statement, DESIGN 9.3)
             events.append({"op": "query", "nodes": [[n["id"], rng.choice(["attr", "qn"])] for n in users], "prog": copy.deepcopy(cur),
                            "defined": sorted(n["id"] for n in cur["nodes"] if ("n", n["id"]) in defined)})
     if rng.random() < 0.3:
